@@ -73,13 +73,10 @@ theorem K0_pairs_heavy {δ : α} (hδ : 0 < δ) {mb : Nat} {ops : List (Op α)} 
   have hpos : ∀ c ∈ (merge (k0 δ) s).centroids, 0 < c.count := fun c hc => hi.pos c (by simp [hc])
   rcases reachable_ksize (k0 δ) h with e | ⟨n, hg⟩
   · rw [e]; trivial
-  · have hne : (merge (k0 δ) s).centroids ≠ [] := by
-      intro e; rw [e] at hg hpos
-      exact absurd e (by
-        intro _
-        exact absurd rfl (by intro (_ : (1:ℕ) = 1); exact absurd e (by simpa using e ▸ rfl |> fun _ => id) ) )
-    have hS := sumCount_pos hpos hne
-    exact greedy_k0_pairs hδ n hS _ 0 le_rfl (by rw [zero_add, div_self hS.ne']) hpos hg
+  · by_cases hne : (merge (k0 δ) s).centroids = []
+    · rw [hne]; trivial
+    · have hS := sumCount_pos hpos hne
+      exact greedy_k0_pairs hδ n hS _ 0 le_rfl (by rw [zero_add, div_self hS.ne']) hpos hg
 
 /-- `centroid_bound_K0`: with `K0` and compression `δ`, a read sees fewer than `δ + 1` centroids
 (the code requires `1 < δ`; `0 < δ` suffices here). -/
